@@ -329,8 +329,8 @@ func checkC18(p *Program, r *Report) {
 							if nc, ok := bo.X.(*ssa.Call); ok {
 								if o := calleeObj(nc); o != nil && isFuncNamed(o, "flag", "", "NArg") {
 									k, _ := bo.Y.(*ssa.Const)
-									onFalse := id.Succs[1] == d || id.Succs[1].Dominates(d)
-									onTrue := id.Succs[0] == d || id.Succs[0].Dominates(d)
+									onFalse := edgeOnly(id, 1, d)
+									onTrue := edgeOnly(id, 0, d)
 									if k != nil && ((bo.Op == token.LSS && k.Int64() >= 1 && onFalse) || (bo.Op == token.GEQ && k.Int64() >= 1 && onTrue) || (bo.Op == token.GTR && k.Int64() >= 0 && onTrue)) {
 										guard = true
 									}
